@@ -291,6 +291,43 @@ pub fn cmd_explore(opt: &HashMap<String, String>) -> i32 {
         }
     }
 
+    // C04: a second instantiation with unsized borrowed keys that alias stored keys
+    if want(4) && !opt.contains_key("no-strmap") && phases.iter().all(|ph| ph.result.machinery.is_none()) {
+        let nk = if thorough { 6 } else { 4 };
+        for hk in ALL_HK {
+            let r = crate::strmap::explore(hk, nk, p(4));
+            let mut stats = Stats::default();
+            stats.transitions = r.transitions;
+            stats.executions = r.transitions;
+            stats.replays_validated = r.transitions;
+            *stats.rule_evals.entry("C04.borrowed-form").or_insert(0) += r.transitions;
+            let cfg = Config { hk, cap: None, limit: usize::MAX };
+            let root = Root { cfg, prefix: vec![], label: format!("LruCache<&'static str, V, {}> with keys that are overlapping slices of one buffer", hk.name()) };
+            let violations = r
+                .violations
+                .into_iter()
+                .map(|x| VRec { props: x.props, rule: x.rule, detail: x.detail, root: 0, hist: vec![], op: None, mode: "strmap" })
+                .collect();
+            let result = ExploreResult {
+                states: r.states,
+                transitions: r.transitions,
+                depth_completed: 0,
+                fixpoint: true,
+                cap_hit: None,
+                stats,
+                violations,
+                machinery: None,
+                samples: vec![],
+                level_sizes: vec![],
+                wall_s: 0.0,
+                novel: vec![],
+                fault_states: 0,
+                known: Default::default(),
+            };
+            phases.push(Phase { name: format!("str-keyed closure ({} keys, {})", nk, hk.name()), result, roots: vec![root], alpha_len: 0, nkeys, fault_props: 0 });
+        }
+    }
+
     finish(&prop_s, pnum, &tier, seed, &u, big, phases, &known, &replay_dir, opt.get("out"), t0)
 }
 
@@ -493,6 +530,17 @@ pub fn cmd_replay(opt: &HashMap<String, String>) -> i32 {
         println!("  {l}");
     }
     match (mode.as_str(), op) {
+        ("strmap", _) => {
+            for nk in [4usize, 6] {
+                let r = crate::strmap::explore(cfg.hk, nk, p(4));
+                for x in r.violations {
+                    viols.push((x.rule.to_string(), x.detail));
+                }
+                if !viols.is_empty() {
+                    break;
+                }
+            }
+        }
         ("fault", op) => {
             // the fault scan re-enumerates every fault point of the operation
             // (C16) or every leak point of every iterator (C17) in that state
